@@ -322,12 +322,6 @@ func (w *c09UdpWorld) fwd(orig int, dot, writeOk bool) {
 			fmt.Sscanf(msg.Question[0].Name, "q%d.test.", &qn)
 			res = fmt.Sprintf("trunc:%d:%d:%d", msg.Id, qn, c09AnsToken(msg.Answer))
 			w.stat.Inc("udp.truncated")
-		case strings.Contains(err.Error(), "too many stale"):
-			res = "stale-flood"
-			w.stat.Inc("udp.stale-flood")
-		case strings.Contains(err.Error(), "too many malformed"):
-			res = "short-flood"
-			w.stat.Inc("udp.short-flood")
 		case strings.Contains(err.Error(), "write failed"):
 			res = "write-err"
 			w.stat.Inc("udp.write-err")
@@ -338,8 +332,10 @@ func (w *c09UdpWorld) fwd(orig int, dot, writeOk bool) {
 			res = "ioerr"
 			w.stat.Inc("udp.ioerr")
 		default:
-			res = "unpack-err"
-			w.stat.Inc("udp.unpack-err")
+			// too many stale / too many malformed / unpack error: the socket is given up (no sentinel errors
+			// exist for these; their wording is not compared)
+			res = "gave-up"
+			w.stat.Inc("udp.gave-up")
 		}
 		kept := !conn.closed && len(w.d.pool.idleConns) == 1
 		left := 0
@@ -950,11 +946,9 @@ func (w *c09CtlWorld) outcome(c *c09Client) string {
 		switch {
 		case errors.Is(c.err, ErrDNSTruncated):
 			return "error:truncated"
-		case strings.Contains(c.err.Error(), "does not answer the question asked"):
-			// ErrDNSResponseQuestionMismatch (by text: the harness must still build when b94e062 is reverted)
+		case c09ErrMismatch != nil && errors.Is(c.err, c09ErrMismatch):
+			// the sentinel comes from a generated shim (nil when /repo has no such sentinel, i.e. b94e062 reverted)
 			return "error:mismatch"
-		case strings.Contains(c.err.Error(), "DNS response expected"):
-			return "error:not-response"
 		case errors.Is(c.err, ErrDNSQueryConcurrencyLimitExceeded) && c.w.msg != nil:
 			// REFUSED was written, the sentinel error only tells the caller not to answer again
 		default:
